@@ -14,17 +14,8 @@ def closure_ret(ctx, t):
                 yield s, TermCx(ctx.prog, f).local(0)
 
 
-def run(ctx):
-    ctx.decided = ("the three count refusals (signer: |commitments| < own threshold, before nonces/share are used; "
-                   "coordinator: |shares| < recorded threshold; reconstruct: empty / |packages| < min threshold / "
-                   "duplicates, before interpolation), each compared at full integer width; the sharing polynomial "
-                   "has exactly min_signers-1 drawn coefficients of the same min_signers that is validated and "
-                   "recorded, and the commitment is built from all of them.")
-    ctx.undecided = ("unforgeability below the threshold and the interpolation arithmetic (cryptographic / numeric "
-                     "clauses of the statement).")
-    ctx.floor = 12
+def sign_count_refusal(ctx):
     P = ctx.prog
-
     # G01 signer refuses a package with fewer than min_signers commitments, before using nonces or share
     f = ctx.anchor(CORE + "round2::sign")
     if f:
@@ -37,6 +28,8 @@ def run(ctx):
                                       w.of(fld(kp, "min_signers")), True))],
                 sinks, width=w)
 
+def aggregate_count_refusal(ctx):
+    P = ctx.prog
     # G04 coordinator refuses fewer shares than the recorded threshold (None = threshold unknown: by design)
     f = ctx.anchor(CORE + "aggregate_custom")
     if f:
@@ -56,6 +49,8 @@ def run(ctx):
                   if fact[0] == "succ" and minf(fact[1]) else None)],
                 ok_sinks(f), width=w, require_fail_err=True) if False else None
 
+def reconstruct_refusals(ctx):
+    P = ctx.prog
     # G07-G09 reconstruct
     f = ctx.anchor(CORE + "keys::reconstruct")
     if f:
@@ -83,6 +78,64 @@ def run(ctx):
                 [("set.len==len", cmp_fact("eq", length(lambda t: mentions(t, call("collect")) and mentions(t, arg(1))),
                                            length(arg(1)), False))], sinks)
 
+def threshold_provenance(ctx):
+    """every KeyPackage the library constructs carries a threshold copied from its inputs (a min_signers field of an
+    argument / the checked commitment length), never a constant, a default or an unrelated count: the signer's refusal
+    compares against this value."""
+    P = ctx.prog
+    n = 0
+    for f in sorted(P.fns.values(), key=lambda f: f.key):
+        if not f.has_body or f.derive or not f.crate.startswith("frost"):
+            continue
+        sites = [(b.i, i, s) for b in f.blocks for i, s in enumerate(b.stmts)
+                 if s["k"] == "assign" and s["rv"]["k"] == "agg" and s["rv"].get("adt") == CORE + "keys::KeyPackage"]
+        if not sites:
+            continue
+        v = FnView.get(P, f)
+        for (bb, i, st) in sites:
+            t = v.cx.rvalue(st["rv"], (f.key, bb, i))
+            ms = get_field(t, "min_signers")
+            w = Width()
+            core, _ = strip_casts(ms)
+            while core[0] in ("some", "ok") and core[1][0] not in ("call",) or (core[0] in ("some", "ok") and core[1][0] == "ok_or"):
+                core = core[1][1] if core[1][0] == "ok_or" else core[1]
+            ok = (core[0] == "field" and core[3] == "min_signers" and mentions(core, lambda s: s[0] == "arg")) or \
+                (core == ("arg", 5) and f.key.endswith("KeyPackage::<C>::new")) or \
+                w.of(length(lambda x: mentions(x, lambda s: is_field(s, "SecretShare", "commitment") or is_field(s, "VerifiableSecretSharingCommitment", "0"))))(ms) and not w.narrow
+            n += 1
+            ctx.check(ok, "PROV", f.key, "KeyPackage.min_signers-copied-from-inputs",
+                      "%s builds a KeyPackage whose threshold is %s: not a copy of an input's min_signers / the commitment "
+                      "length — a participant holding it would sign for fewer than the real threshold (or refuse valid sets)"
+                      % (short_key(f.key), fmt(ms)[:120]), f.loc)
+    ctx.check(n >= 5, "PROV", "workspace", "KeyPackage-construction-sites", "expected >= 5 KeyPackage construction sites, found %d" % n)
+
+
+def short_key(k):
+    from ..terms import short
+    return short(k)
+
+
+def run(ctx):
+    ctx.decided = ("the three count refusals (signer: |commitments| < own threshold, before nonces/share are used; "
+                   "coordinator: |shares| < recorded threshold; reconstruct: empty / |packages| < min threshold / "
+                   "duplicates, before interpolation), each compared at full integer width; the sharing polynomial "
+                   "has exactly min_signers-1 drawn coefficients of the same min_signers that is validated and "
+                   "recorded, and the commitment is built from all of them.")
+    ctx.undecided = ("unforgeability below the threshold and the interpolation arithmetic (cryptographic / numeric "
+                     "clauses of the statement).")
+    ctx.floor = 25
+    P = ctx.prog
+
+    sign_count_refusal(ctx)
+    aggregate_count_refusal(ctx)
+    reconstruct_refusals(ctx)
+    # fewer than t shares never aggregate into a released signature: Ok only behind the group-key verification
+    from .c04 import verify_before_release
+    verify_before_release(ctx)
+    threshold_provenance(ctx)
+    # the sharing polynomial has t-1 *independent* coefficients (one draw each)
+    from .c16 import per_coefficient_draw
+    per_coefficient_draw(ctx)
     # G14 polynomial length guard + commitment from all coefficients
     f = ctx.anchor(CORE + "keys::generate_secret_polynomial")
     if f:
